@@ -5,7 +5,7 @@
 From Coq Require Import List Ascii String NArith ZArith Bool Lia.
 Import ListNotations.
 Require Import Dec Header.
-Require Import Bytes MsgType MsgTypeFwd TablesLift KV Trim Parser ParseLine.
+Require Import Bytes MsgType MsgTypeFwd TablesLift KV Trim Parser ParseLine HeaderIdx HeaderIdxProofs ToMap.
 Open Scope N_scope.
 
 (* every seconds value in [0,2^34), milliseconds 000-999, sequence in uint32, ANY text
@@ -44,6 +44,28 @@ Qed.
 Example C04_example : trim_space (render_header (L "audit") 1700000000 7 42 (L "): pid=1 uid=0")) = render_header (L "audit") 1700000000 7 42 (L "): pid=1 uid=0").
 Proof. vm_compute. reflexivity. Qed.
 
+(* a malformed header is an error: parseAuditHeader accepts a line only if it reads  pre ( sec . msec : seq ) rest  with the
+   first ( . : ) of the line as delimiters and three numbers strconv accepts *)
+Theorem C04_header_accepted_only_if_wellformed : forall line h, parse_audit_header line = HOk h ->
+  exists pre a b c, line = (pre ++ "("%char :: a ++ "."%char :: b ++ ":"%char :: c ++ ")"%char :: h_after h)%list /\
+    ~ In "("%char pre /\ ~ In "."%char a /\ ~ In ":"%char b /\ ~ In ")"%char c /\
+    parse_int10_64 a = HOk (h_sec h) /\ parse_int10_64 b = HOk (h_msec h) /\ parse_uint10 32 c = HOk (h_seq h).
+Proof. exact header_accepted_only_if_wellformed. Qed.
+(* ToMapStr: the four header keys carry the header's values whatever the body held - fields named record_type, @timestamp,
+   sequence or raw_msg included - and every other field is reported as Data() gave it *)
+Theorem C04_to_map_str_header_keys : forall rt ts sq raw data,
+  let m := to_map_str rt ts sq raw data in
+  mget (L "record_type") m = Some rt /\ mget (L "@timestamp") m = Some ts /\ mget (L "sequence") m = Some sq /\ mget (L "raw_msg") m = Some raw.
+Proof. exact to_map_str_header_keys. Qed.
+Theorem C04_to_map_str_keeps_data : forall rt ts sq raw data k v,
+  NoDup (map fst data) -> In (k, v) data ->
+  beq (L "record_type") k = false -> beq (L "@timestamp") k = false -> beq (L "sequence") k = false -> beq (L "raw_msg") k = false ->
+  mget k (to_map_str rt ts sq raw data) = Some v.
+Proof. exact to_map_str_keeps_data. Qed.
+
+Print Assumptions C04_header_accepted_only_if_wellformed.
+Print Assumptions C04_to_map_str_header_keys.
+Print Assumptions C04_to_map_str_keeps_data.
 Print Assumptions C04_header_roundtrip.
 Print Assumptions C04_log_line_roundtrip.
 Print Assumptions C04_type_roundtrip.
